@@ -9,6 +9,9 @@ CONSTANTS
   Styles = {"split", "poll"}
   MaxPub = 2
   MaxBatch = 1
+  MinBatch = 1
+  PubClosed = FALSE
+  MaxAhead = 0
   MaxJoin = 1
   AtPos = {}
   MaxKick = 0
